@@ -79,7 +79,7 @@ type forest struct {
 	Imported map[string]string `json:",omitempty"` // alias -> import class
 }
 
-var stemWords = []string{"root", "ca", "sub", "issuing", "leaf", "server", "client", "ocsp", "alice", "bob", "tsa", "dev"}
+var stemWords = []string{"root", "ca", "sub", "issuing", "leaf", "server", "client", "ocsp", "alice", "bob", "tsa", "dev", "RootCA", "Sub.G2", "web.example.org"}
 
 func genForest(t *rapid.T, o forestOpts) forest {
 	var f forest
@@ -97,8 +97,8 @@ func genForest(t *rapid.T, o forestOpts) forest {
 			if try > 0 {
 				stem = fmt.Sprintf("%s%d", stem, i)
 			}
-			dir := rapid.SampledFrom([]string{"", "", "ca/", "certs/users/", "x/"}).Draw(t, fmt.Sprintf("%s-dir%d", l, try))
-			ext := rapid.SampledFrom([]string{".yaml", ".yaml", ".yml", ".json"}).Draw(t, fmt.Sprintf("%s-ext%d", l, try))
+			dir := rapid.SampledFrom([]string{"", "", "ca/", "certs/users/", "x/", "pki.v2/", "Org Unit/a.b/"}).Draw(t, fmt.Sprintf("%s-dir%d", l, try))
+			ext := rapid.SampledFrom([]string{".yaml", ".yaml", ".yml", ".json", ".YAML", ".Yml", ".JSON"}).Draw(t, fmt.Sprintf("%s-ext%d", l, try))
 			alias := ""
 			if rapid.IntRange(0, 2).Draw(t, fmt.Sprintf("%s-explicit%d", l, try)) == 0 {
 				alias = fmt.Sprintf("%s alias %d", stem, i)
@@ -131,6 +131,13 @@ func genForest(t *rapid.T, o forestOpts) forest {
 		e.Subject = []core.RDN{{Key: "CN", Value: fmt.Sprintf("Entity %d %s", i, core.Stem(e.File))}, {Key: "O", Value: "Verif"}}
 		if rapid.IntRange(0, 3).Draw(t, l+"-richsubject") == 0 {
 			e.Subject, e.SubjectSep = genSubject(t, l+"-subj", 1, 4)
+			if rapid.IntRange(0, 2).Draw(t, l+"-hexvalue") == 0 {
+				// "#<hex>" attribute values (RFC 4514 style, handled by the subject parser): the chain properties
+				// hold for whatever the value is encoded as
+				txt := rapid.StringMatching(`[a-z0-9][a-z0-9 ]{0,10}[a-z0-9]`).Draw(t, l+"-hextext") // valid in every string type
+				tag := rapid.SampledFrom([]byte{0x0c, 0x13, 0x16, 0x04}).Draw(t, l+"-hextag")
+				e.Subject[0].Value = fmt.Sprintf("#%02x%02x%x", tag, len(txt), txt)
+			}
 		}
 		e.KeyAlg = rapid.SampledFrom(o.KeyAlgs).Draw(t, l+"-keyalg")
 		if !isRSAName(e.KeyAlg) && rapid.IntRange(0, 5).Draw(t, l+"-keydefault") == 0 {
